@@ -158,7 +158,9 @@ CLAIMED = {
              "payloads (well-formed, truncated, odd, non-hex), node ids, firmware ids and stores, "
              "and of every update_fw call form (single id, list, unknown id, missing firmware, "
              "non-integer type, same firmware) with its prescribed effect on the stores and the "
-             "reboot flags",
+             "reboot flags, plus bounded OTA histories (4-5 events of update call / config request "
+             "/ block request / set / node presentation on two nodes) through the public API with "
+             "the automaton run alongside",
         note="a block request for a firmware other than the scheduled one and a block index beyond "
              "the image are not prescribed by the statement: for those inputs only 'no exception' "
              "is checked; load_fw stubbed (Intel-HEX not encoded); two nodes, one image"),
